@@ -19,7 +19,8 @@ from concurrent.futures import ThreadPoolExecutor
 from vlib import common, tla, tracebatch, graphwalk
 
 PROP = "C19"
-OPNAME = {"Initialize": "initialize", "Call": "call", "Notify": "notify", "ServerAsks": "serverasks", "Terminate": "terminate"}
+OPNAME = {"Initialize": "initialize", "Call": "call", "Notify": "notify", "ServerAsks": "serverasks", "Terminate": "terminate",
+          "ServerAsksOther": "serverasksother", "TerminateRefused": "terminaterefused"}
 
 
 def reachable_edges(g, init):
